@@ -24,8 +24,12 @@ def run(tier):
         nproc, nseq, maxops = 48, 500, 400
     args = [[s * 7919 + i, nseq, maxops] for i in range(nproc)]
     outs = fw.run_harness_parallel(res, exe, args, timeout=7200, key_prefix="C05")
+    exe_p = build.build_harness("structs_map", "plain", ["structs_map.c"])
+    margs = [[s * 104729 + i, 12 if tier == "quick" else 120, 300] for i in range(4 if tier == "quick" else 16)]
+    outs += fw.run_harness_parallel(res, exe_p, margs, timeout=3600, key_prefix="C05", wrapper=fw.MEMCHECK)
+    res.count("memcheck_processes", len(margs))
     res.evaluations = res.counters.get("sequences", 0)
-    if res.counters.get("hash_copy_valid", 0) != len(args):
+    if res.counters.get("hash_copy_valid", 0) != len(args) + len(margs):
         res.inconclusive.append({"what": "adversarial key mining disabled: hash copy stale"})
         if res.counters.get("wrap_cluster_sequences", 0) == 0:
             print("INCONCLUSIVE: adversarial part not exercised")
